@@ -28,8 +28,14 @@ def containsSC4 : Bytes → Bool
   | [] => false
   | x :: xs => startsSC4 (x :: xs) || containsSC4 xs
 
+/-- end of the piece before a start code found at `idx0`: one zero byte right before `00 00 01`
+belongs to the start code (`if idx > 0 && b[idx-1] == 0 { idx--; sz++ }`) -/
+def pieceEnd (b : Bytes) (idx0 : Nat) : Nat :=
+  if idx0 > 0 && b.getD (idx0 - 1) 1 == 0 then idx0 - 1 else idx0
+
 /-- Go `splitNALUs`; one iteration of `for len(b) > 0` per unit of fuel (every iteration that does
-not stop removes at least three bytes, see `splitNALUs_fuel`). -/
+not stop removes at least three bytes, see `splitNALUsF_fuel`).  `idx + sz` of the Go code is
+`idx0 + 3` whether or not the zero byte was absorbed. -/
 def splitNALUsF : Nat → Bytes → List Bytes
   | 0, _ => []
   | fuel + 1, b =>
@@ -38,11 +44,8 @@ def splitNALUsF : Nat → Bytes → List Bytes
       match findSC b with
       | none => [b]
       | some idx0 =>
-        let zeroBefore : Bool := idx0 > 0 && b.getD (idx0 - 1) 1 == 0
-        let idx := if zeroBefore then idx0 - 1 else idx0
-        let sz := if zeroBefore then 4 else 3
-        if idx = 0 then splitNALUsF fuel (b.drop sz)
-        else b.take idx :: splitNALUsF fuel (b.drop (idx + sz))
+        let rest := splitNALUsF fuel (b.drop (idx0 + 3))
+        if pieceEnd b idx0 = 0 then rest else b.take (pieceEnd b idx0) :: rest
 
 def splitNALUs (b : Bytes) : List Bytes := splitNALUsF (b.length + 1) b
 
